@@ -281,6 +281,26 @@ Example ex_impl_chain :
 Proof. vm_compute. reflexivity. Qed.
 
 
+(* a while-style loop (nil init clause) has a scope of its own like every for (fresh_for is stated for any init):
+   (def x 1) (def i 0) (for [nil (< i 1) (set i (+ i 1))] (def x 5)) x  = 1 *)
+Example ex_while_loop_scope :
+  o_res (eval_program 60 [EDef 100 (EInt 1); EDef 200 (EInt 0);
+                          EFor None ENil (ECall (EVar 4) [EVar 200; EInt 1]) (ESet 200 (ECall (EVar 1) [EVar 200; EInt 1]))
+                            [EDef 100 (EInt 5)];
+                          EVar 100])
+  = Done (SvInt 1).
+Proof. vm_compute. reflexivity. Qed.
+
+(* a free variable ten closure levels up is found through the static chain, whatever its length: the same-named
+   global 100 is not what the innermost function sees *)
+Example ex_deep_chain :
+  let nest := fix nest (n : nat) (e : expr) : expr := match n with O => e | S k => EFn [] None [nest k e] end in
+  let calls := fix calls (n : nat) (e : expr) : expr := match n with O => e | S k => calls k (ECall e []) end in
+  o_res (eval_program 80 [EDef 100 (EInt 100); EDefn 101 [100] None [nest 10%nat (EVar 100)];
+                          calls 10%nat (ECall (EVar 101) [EInt 7])])
+  = Done (SvInt 7).
+Proof. vm_compute. reflexivity. Qed.
+
 (* (def x 10) (defn f [] x) (defn g [x] (f)) (g 1) = 10, not 1 *)
 Example ex_not_dynamic :
   o_res (eval_program 50 [EDef 100 (EInt 10); EDefn 101 [] None [EVar 100];
